@@ -50,10 +50,23 @@ def run(tier, seed, model_ok, spec_ok, replay=None):
         t_terms = rg.schema(sub, g.r.randint(1, 3), cast_p=0.4)
         if g.r.random() < 0.2:
             t_terms = cross_cast(g, rg, sub) or t_terms       # a later rule of T looks at a node an earlier rule of T casts
+        mode = g.r.random()
         try:
-            S = v.Schema([r.build() for r in s_terms])
-            S2 = v.Schema([r.build() for r in s_terms])
             Tm = v.Schema([r.build() for r in t_terms])
+            if mode < 0.2:
+                # both targets built from ONE list object the caller keeps: a schema owns its list of rules, so an addition to one
+                # target is not an addition to the other (nor to the caller's list)
+                base = [r.build() for r in s_terms]
+                S, S2 = v.Schema(base), v.Schema(base)
+                dist["targets built from one list"] += 1
+            elif mode < 0.35:
+                # the target starts from the rules of T itself (the very list T holds): T still does not grow
+                s_terms = list(t_terms)
+                S, S2 = v.Schema(Tm.rules), v.Schema(list(Tm.rules))
+                dist["target built from T.rules"] += 1
+            else:
+                S = v.Schema([r.build() for r in s_terms])
+                S2 = v.Schema([r.build() for r in s_terms])
             roots_b = [r.build() for r in roots]
             for k_, r_ in enumerate(roots):
                 # a root of one string key may also be given as the bare string (it is joined with `/`, never split into characters)
